@@ -13,7 +13,7 @@ PROPS = {
                       "agreement with transcribed CPython readers, assembler images inside the domains; the stage functions are tied to the code by function-level "
                       "correspondence on every run (this property is about those functions), and CPython's real readers are the oracle on 3.7-3.10",
         "level_note": "see coverage.trusted_base; proofs concern the model, the tie is the differential run (generator-bounded)",
-        "imports": "Model.LineTable Model.LineTableSer",
+        "imports": "Model.LineTable Model.LineTableSer Spec.Lnotab",
         "prelude": "",
         "trusted_base": COMMON_TB + [
             "Spec/Lnotab.v: transcription of CPython's PyCode_Addr2Line, co_lines and the three assemblers; "
